@@ -137,6 +137,8 @@ def main(tier: str, seed: int) -> int:
             specs.append(base)
             bi = len(specs) - 1
             for vname, delta in PROFILES:
+                if tier == "quick" and vname == "after_uc7":
+                    continue  # (building UC7 first costs ~10 s per run: thorough tier only)
                 v = copy.deepcopy(base)
                 v.update({k: x for k, x in delta.items() if k != "profile"})
                 v["profile"] = dict(delta.get("profile", {}))
